@@ -679,8 +679,24 @@ def rule_G10(ck):
                         mapped.add(norm_text(n.test.comparators[0]).split(".")[-1])
             extra -= mapped
         if extra:
-            ck.violation(asserts[0], f"operand types in the annotation table include {sorted(extra)}, which 'assert operand_type in (...)' does not allow: an excess operand of such a directive ('.repeat 2, 3') is an internal error",
-                         construct="parse_insn_operand type assert vs annotation table")
+            # not the shape this clause reads (the mapping may sit in a helper): decide by running the real statement parser on an
+            # excess operand of every directive that takes such a type
+            from ..props.c05 import run_parser
+            crashed = []
+            for name, cmd in sorted(table.items(), key=lambda kv: str(kv[0])):
+                if any(getattr(oi["type"], "name", "") in extra for oi in cmd.fields["operand_info"]):
+                    text = f"{name} 2, 3 {{ nop }}\n"
+                    try:
+                        r_, pos_, errs_, raised_ = run_parser(I, "code", text)
+                    except Unknown as ex_:
+                        crashed.append((text.strip(), str(ex_)[:80]))
+                        continue
+                    ck.instance(("dispatch", "excess operand", name), {"text": text.strip(), "raised": raised_, "errors": errs_}, fn="parser::parse_insn_operand")
+                    if raised_ in ("AssertionError", "TypeError", "AttributeError", "KeyError", "IndexError"):
+                        crashed.append((text.strip(), raised_))
+            if crashed:
+                ck.violation(asserts[0], f"operand types in the annotation table include {sorted(extra)}, which 'assert operand_type in (...)' does not allow: {crashed[0][0]!r} ends in {crashed[0][1]} (an internal error)",
+                             construct="parse_insn_operand type assert vs annotation table")
     # (the cooking of every annotation type is exercised by C02.R1 / C06, which run every directive)
     # (d) compile_insn's symbol-kind dispatch: values of Compiler.symbols are stored by compile_label / compile_assignment only
     stores = []
@@ -722,6 +738,9 @@ def rule_G11(ck):
                 nm = f.id if isinstance(f, ast.Name) else None
                 if nm in sources:
                     tainted.setdefault(a.targets[0].id, []).append(a)
+            # (register := try_as_register(...)) is the same binding
+            if isinstance(a, ast.NamedExpr) and isinstance(a.target, ast.Name) and isinstance(a.value, ast.Call) and isinstance(a.value.func, ast.Name) and a.value.func.id in sources:
+                tainted.setdefault(a.target.id, []).append(a)
         for name, assigns in tainted.items():
             for use in walk_local(fn):
                 if not (isinstance(use, ast.Name) and use.id == name and isinstance(use.ctx, ast.Load)):
